@@ -392,6 +392,7 @@ type op =
 | OSubStatus of z * z * z * z
 | OPathAppend of path * z
 | OAliasAttr of z * path
+| OReplaceSeries of z * z list
 
 val is_empty_trace : heap -> loc -> z -> bool
 
@@ -437,6 +438,9 @@ val linker_solve_ops :
 type hevent =
 | HOps of nat * op list
 | HEv of event
+| HCopySeries of nat * nat * z * z
+| HAddVarFrom of nat * nat * z * z
+| HInitFrom of nat * iargs * nat * z * z
 
 val run_hevent : consts -> state -> hevent -> state
 
